@@ -123,6 +123,7 @@ TrStep ==
                                  [] e.e = "Eig" -> EigHits(e)
                                  [] e.e \in {"Reset", "EndBk", "EndKernels"} -> {}
                                  [] e.e = "OutOfRange" -> {Hit("OutOfRange")}
+                                 [] e.e = "Abort" -> {Hit("Abort")}
                                  [] OTHER -> {Hit("UnknownRow")})
         /\ cov' = LET c0 == Bump(cov, "rows", 1) IN
                   CASE e.e = "Bk" /\ e.kind = "exact" ->
